@@ -1,5 +1,6 @@
 import SamplyModel.Lemmas.SymbolicateD
 import SamplyModel.Lemmas.SymbolicateE
+import SamplyModel.Lemmas.SymbolicateF
 /-!
 # C07 — `/symbolicate/v5` answers every requested frame, in request shape, truthfully
 
@@ -515,6 +516,56 @@ theorem C07_body_of_request (load : Load) (extOrder) (raw : RawRequest) :
     simp only [handleBody, decodeBody, RawRequest.body, handle, decode, Option.bind_none, Option.bind_some]
     cases decodeJob j <;> simp
 
+/-- **Totality over the symbol maps of C05.** The half `symAddr ≤ address` of `OracleOk` (the guard of the
+`u32` subtraction at mod.rs:232) is no assumption when the oracle function of every requested library that
+loads reports the symbols of a map modelled for C05 — an object file's symbol list (ELF / Mach-O / PE), a
+Breakpad index, a jitdump index, under the hypotheses of C05's `contains` theorems (`SymSource.WellFormed`):
+it is `C05_contains_{obj,bp,jit}`. What remains assumed is the non-empty frame list. Then every request with
+valid indices is answered, nothing panics, and every symbolicated frame lies inside the function it names:
+`function_offset < function_size` whenever a size is reported. -/
+theorem C07_total_over_C05 (look : Look) (extOrder) (hext : ExtOrderOk extOrder) (req : Request)
+    (hsrc : ∀ lib f, Requested req lib → look lib = .ok f →
+      ∃ src : SymSource, src.WellFormed ∧ SymbolsFrom f src)
+    (hframes : ∀ lib a f info, RequestedAddr req lib a → look lib = .ok f → f a = some info →
+      info.frames.resolved ≠ some []) :
+    OracleOk look req ∧
+    (AllIndicesValid req → ∃ resp, queryApi look extOrder req = .ok resp) ∧
+    (∀ site, queryApi look extOrder req ≠ .error (.panic site)) ∧
+    (∀ resp, queryApi look extOrder req = .ok resp →
+      ∀ j s i job fr rf sym, req.frameAt j s i = some (job, fr) → resp.frameAt j s i = some rf →
+        rf.symbol = some sym → ∀ n, sym.functionSize = some n → sym.functionOffset < n) := by
+  have hor : OracleOk look req := by
+    intro lib a f info hra hl hf
+    obtain ⟨src, hwf, hfrom⟩ := hsrc lib f ⟨a, hra⟩ hl
+    obtain ⟨r, hr, hs, _⟩ := hfrom a info hf
+    have := (symbolAt_contains src hwf a r hr).1
+    exact ⟨by omega, hframes lib a f info hra hl hf⟩
+  obtain ⟨t1, t2⟩ := C07_total look extOrder hext req hor
+  refine ⟨hor, t1, t2, ?_⟩
+  intro resp h j s i job fr rf sym hfa hra hsym n hn
+  obtain ⟨_, sh⟩ := C07_shape look extOrder hext req resp h
+  obtain ⟨rf', lib, hrf', hlib, _⟩ := sh j s i job fr hfa
+  have htr := C07_truthful look extOrder hext req resp h j s i job fr rf lib hfa hra hlib
+  have hreqA := requestedAddr_of_frameAt hfa hlib
+  cases hl : look lib with
+  | error e => rw [hl] at htr; simp only at htr; rw [hsym] at htr; simp at htr
+  | ok f =>
+    rw [hl] at htr
+    simp only at htr
+    cases hf : f fr.address with
+    | none => rw [hf] at htr; simp only at htr; rw [hsym] at htr; simp at htr
+    | some info =>
+      rw [hf] at htr
+      simp only at htr
+      obtain ⟨sym', hs', hoff, hsize, _⟩ := htr
+      rw [hsym] at hs'
+      injection hs' with hs'
+      subst hs'
+      obtain ⟨src, hwf, hfrom⟩ := hsrc lib f ⟨fr.address, hreqA⟩ hl
+      obtain ⟨r, hr, hstart, hsz⟩ := hfrom fr.address info hf
+      have hc := (symbolAt_contains src hwf fr.address r hr).2 n (by rw [← hsz, ← hsize, hn])
+      omega
+
 /-! ### Non-vacuity
 
 A request with the `jobs` wrapper and two jobs that share one library (at different module indices), an
@@ -611,3 +662,21 @@ example : (decodeBody ⟨some [⟨[C07_libA], [[(0, 5)]]⟩, ⟨[], []⟩], some
     some [⟨[C07_libA], [[⟨0, 5⟩]]⟩, ⟨[], []⟩] := by decide
 example : (decodeBody ⟨some [⟨[C07_libA], [[(0, -5)]]⟩, ⟨[], []⟩], some ⟨[C07_libB], [[(0, 7)]]⟩⟩).map Request.jobs =
     some [⟨[C07_libB], [[⟨0, 7⟩]]⟩] := by decide
+
+/-- the hypothesis `SymbolsFrom` of `C07_total_over_C05` is met by the oracle function read off any modelled
+symbol map (here without debug info), and jitdump / Breakpad / object sources are well-formed under C05's
+own hypotheses (an empty Breakpad index is the trivial instance) -/
+example (src : SymSource) :
+    SymbolsFrom (fun a => match src.symbolAt a with
+      | .hit r => some ⟨r.start, r.size, "f", .none⟩
+      | _ => none) src := by
+  intro a info h
+  simp only at h
+  split at h
+  · next r hr =>
+    injection h with h
+    subst h
+    exact ⟨r, hr, rfl, rfl⟩
+  · simp at h
+
+example (f : Breakpad.File) : (SymSource.breakpad f []).WellFormed := List.Pairwise.nil
